@@ -295,7 +295,21 @@ class Gen:
         else:
             unc = r.random() < 0.3
             tpl = self.state_template()
-            pred = TrajectoryPrediction(Trajectory(1, [self.state(1 + i, unc, tpl) for i in range(n)]), shape)
+            states = [self.state(1 + i, unc, tpl) for i in range(n)]
+            r4 = random.Random(self.seed ^ 0x1A7E ^ oid)
+            if r4.random() < 0.3 and tpl[0] not in (CustomState, PMState):
+                # a quantity that is filled in after the trajectory was put together (the heading, or one of the other
+                # fields of the state class): None while the Trajectory is constructed, assigned afterwards
+                attr = r4.choice(["orientation"] + list(tpl[1]))
+                vals = [getattr(st, attr) for st in states]
+                for st in states:
+                    setattr(st, attr, None)
+                traj = Trajectory(1, states)
+                for st, v in zip(states, vals):
+                    setattr(st, attr, v)
+            else:
+                traj = Trajectory(1, states)
+            pred = TrajectoryPrediction(traj, shape)
         return DynamicObstacle(oid, otype, shape, init, pred, **kw)
 
     # ---------------------------------------------------------------- network
